@@ -167,7 +167,7 @@ def run(ctx):
             cb = _blocks(ml, c)
             fors = [l for i in invs for l in hirq.enclosing_loops(ml, i) if l.get("k") == "for"]
             heads = _loop_heads(ml, fors[-1]) if fors else []
-            tests = {b for b, f, t in bflow.field_reads(ml, ".running#fsm::GlobalData")}
+            tests = {b for b, f, t, rb in bflow.field_reads(ml, ".running#fsm::GlobalData")}
             ib = [b for i in invs for b in _blocks(ml, i)]
             ok_after = bool(heads) and _dominated(ml, heads, cb)
             ok_once = not _reaches(ml, cb, ib, avoiding=tests)
